@@ -164,11 +164,13 @@ func ZvC20_Throttle_Concurrent() {
 	nNext := 1 + vrt.Choice(2)
 	var ok [3]bool
 	var b [3]int64
+	var fired [3]int // timers fired by the environment when each Next had returned
 	var c0 int64
 	got := 0
 	vrt.Par(func() {
 		for i := 0; i < nNext; i++ {
 			ok[i] = t.Next()
+			fired[i] = vrt.FiredCount()
 			b[i] = vrt.NowNano()
 			if !ok[i] {
 				return
@@ -185,7 +187,13 @@ func ZvC20_Throttle_Concurrent() {
 	})
 	vrt.Assert(got <= 2, "C20/Throttle/no-more-grants-than-triggers")
 	if got == 2 {
-		vrt.AssertUnless(trailing, b[1]-c0 >= period, "C20/Throttle/at-most-one-permission-per-period")
+		// Region of the known finding: trailing mode AND the second permission was taken before the
+		// trailing-edge timer had fired (the consumer found the permission already set by Call).
+		// Once that timer has fired — it is what releases a consumer waiting inside Next — the
+		// instant read afterwards is past the trailing edge, so the rate clause is enforced in
+		// trailing mode too.
+		known := trailing && fired[1] == 0
+		vrt.AssertUnless(known, b[1]-c0 >= period, "C20/Throttle/at-most-one-permission-per-period")
 		vrt.Cover("C20/Throttle/concurrent-two-grants")
 	}
 	vrt.Assert(!t.Next(), "C20/Throttle/Next-false-after-cancel")
